@@ -30,7 +30,8 @@ cfg("fwd_t3n", k=3, srcends='{"eof"}', faults="{}", post="FALSE", syncs="{FALSE}
 cfg("fwd_draft", k=1, race="FALSE")                    # the calibration draft's resolution of the select race (towards the latch)
 # design mutants (expected: NoStuck violated) - show that the invariants are not vacuous and which mechanisms are redundant
 cfg("mut_nolatchmsg", k=1, latchmsg="FALSE")           # violated
-cfg("mut_nolatchack", k=1, latchack="FALSE")           # holds: the source reacts to the half-close, Fmsg trips the latch
+cfg("mut_nolatchack", k=1, latchack="FALSE")           # violated since silent sources are in the environment (was: holds)
+cfg("mut_nolatchack_coop", k=1, latchack="FALSE", srckinds='{"coop"}')   # holds: a cooperative source reacts to the half-close, Fmsg trips the latch
 cfg("mut_noclosesend", k=1, closesend="FALSE")         # holds: Run's deferred cancel ends the source stream
 cfg("mut_nocancel", k=1, cancel="FALSE")               # holds: the handler's return ends the derived context
 cfg("mut_noclosesend_nocancel", k=1, closesend="FALSE", cancel="FALSE")    # holds: the outgoing context is derived from the server stream's
